@@ -30,5 +30,5 @@ if [ ! -x "$bin" ]; then echo "check: harness build failed"; tail -5 "$out/build
   rc=${PIPESTATUS[0]}
 fi
 git -C /repo worktree remove --force "$wt" >/dev/null 2>&1
-rm -rf "$out" "$hdir" "$bin"
+rm -rf "$hdir"; [ -n "${MUT_KEEP:-}" ] || rm -rf "$out" "$bin"
 exit $rc
